@@ -171,8 +171,6 @@ def reverseBits (w : Nat) (x : List Nat) : List Nat := x.reverse.map (Prim.rever
 end UI
 
 namespace II
-/-- `Self::NEG_ONE` -/
-def negOne (w n : Nat) : List Nat := allOnes w n
 def countOnes (w : Nat) (x : List Nat) : Nat := UI.countOnes w x
 def countZeros (w : Nat) (x : List Nat) : Nat := UI.countZeros w x
 def leadingZeros (w : Nat) (x : List Nat) : Nat := UI.leadingZeros w x
@@ -205,6 +203,13 @@ namespace Traits
 variable (cmp : List Nat → List Nat → Ordering)
 /-- `PartialOrd::partial_cmp` = `Some(self.cmp(other))` -/
 def partialCmp (a b : List Nat) : Option Ordering := some (cmp a b)
+/-- `Ord::cmp` = `Self::cmp(self, other)` -/
+def ordCmp (a b : List Nat) : Ordering := cmp a b
+/-- `Ord::max` / `min` / `clamp` are *overridden* in `{buint,bint}/cmp.rs` to forward to the inherent
+    functions (core's provided bodies are not used) -/
+def ordMax (a b : List Nat) : List Nat := CmpImpl.max cmp a b
+def ordMin (a b : List Nat) : List Nat := CmpImpl.min cmp a b
+def ordClamp (a mn mx : List Nat) : Outcome (List Nat) := CmpImpl.clamp cmp a mn mx
 /-- operator `<` : core's default `PartialOrd::lt` = `matches!(partial_cmp, Some(Less))` -/
 def opLt (a b : List Nat) : Bool := match partialCmp cmp a b with | some .lt => true | _ => false
 def opLe (a b : List Nat) : Bool :=
